@@ -37,7 +37,7 @@ static void body(void) {
   int n, p, big;
   if (sh < nsmall_n * nsmall_p) { n = 2 + sh / nsmall_p; p = 1 + sh % nsmall_p; } else { n = BIGSHAPE[sh - nsmall_n * nsmall_p][0]; p = BIGSHAPE[sh - nsmall_n * nsmall_p][1]; }
   big = n * p > 100;
-  int fam = vx_choose("fam", big ? (vx_thorough() ? 3 : 2) : (vx_thorough() ? 12 : 3));
+  int fam = vx_choose("fam", big ? (vx_thorough() ? 3 : 2) : (vx_thorough() ? 6 : 3));
   int scaling = vx_choose("scaling+1", 7) - 1;
   int off = 0, spr = 0, cc = 0;
   if (!big) {
@@ -250,7 +250,7 @@ static void body(void) {
 
 int main(int argc, char **argv) {
   vg_seed(getenv("VERIF_SEED") ? atol(getenv("VERIF_SEED")) : 0);
-  vx_describe("alphabet", "shape (n,p) in {2..7}x{1..5} [thorough {2..10}x{1..8}] + {(60,25),(60,1),(2,25),(5,25),(25,5),(12,12)}; data = spectral(ratio .85 | .3, sigma_1/sigma_m<=1e3) | lattice, 3 [12] instances (2 [3] for boundary shapes); column modifiers dev<=1 [2] (boundary shapes: none [at most one]): offset {0,1,-7.5,1e3}, spread {as is, min SD 0.02, one column SD 0.02, x1e3}, one constant column {none,first,last,middle}; scaling -1..5; npc 1..rank (boundary shapes: rank,1,rank-1[,2]); processor count {1,2,3,8} [+5,24] on unmodified inputs, {1,3} on modified ones, {1,8} [+3] on boundary shapes, plus real threads at nproc 3 on a small sub-alphabet");
+  vx_describe("alphabet", "shape (n,p) in {2..7}x{1..5} [thorough {2..10}x{1..8}] + {(60,25),(60,1),(2,25),(5,25),(25,5),(12,12)}; data = spectral(ratio .85 | .3, sigma_1/sigma_m<=1e3) | lattice, 3 [6] instances (2 [3] for boundary shapes); column modifiers dev<=1 [2] (boundary shapes: none [at most one]): offset {0,1,-7.5,1e3}, spread {as is, min SD 0.02, one column SD 0.02, x1e3}, one constant column {none,first,last,middle}; scaling -1..5; npc 1..rank (boundary shapes: rank,1,rank-1[,2]); processor count {1,2,3,8} [+5,24] on unmodified inputs, {1,3} on modified ones, {1,8} [+3] on boundary shapes, plus real threads at nproc 3 on a small sub-alphabet");
   vx_describe("oracle", "P'P=I; t_k=E_{k-1}p_k (long-double deflation); E=TP'+R, R p_k=0; GetResidualMatrix = R (nproc=1; scaling -1 probed in a child on unmodified inputs); varexp>=0, sum<=100, =100 at npc=rank, non-increasing where ref lambda ratio<=0.95; at npc=rank PCAIndVarPredictor reproduces X and PCAScorePredictor(X) reproduces T; nproc=k equals nproc=1. Tolerances: C*eps*size*kappa*|E|_F with kappa=sigma_1/sigma_npc from reference singular values; stop-rule slack 100*(2d+d^2), d=sqrt(n*1e-10), on the variance sum");
   vx_describe("preconditions", "column spread >= 0.02 or exactly 0; numerical rank (sigma_i/sigma_1 > 1e-6, gap to 1e-11) >= npc; ties at the 1e-3/1e-2 scale-factor guards pruned");
   vx_set_shard_depth(2);
